@@ -273,7 +273,7 @@ struct Built {
 // ---------------------------------------------------------------------------- generators
 static const std::vector<int>& simTypes() {
     static const std::vector<int> t = {MT_Pin, MT_Slider, MT_Screw, MT_Universal, MT_Cylinder, MT_Planar, MT_Gimbal, MT_Bushing, MT_Ball, MT_Free,
-                                       MT_LineOrientation, MT_FreeLine, MT_Translation, MT_Ellipsoid};
+                                       MT_LineOrientation, MT_FreeLine, MT_Translation, MT_Ellipsoid, MT_SphericalCoords, MT_BendStretch};
     return t;
 }
 // tree with a free-floating base: node 0 = Free on Ground, every other body hangs on a body
@@ -582,6 +582,10 @@ static const char* guardReason(Built& b, const State& s) {
         bool xyz = (t == MT_Gimbal || t == MT_Bushing) || (d.euler && mobHasQuat(t));
         if (xyz) { double q1 = b.m.bodies[k].getOneQ(s, 1); if (std::fabs(std::cos(q1)) < 0.1) return "near-euler-singularity"; }
     }
+    // polar parametrisations: SphericalCoords near its zenith axis or origin, BendStretch near zero stretch
+    if (!sphericalOK(b.m, s)) return "near-spherical-coords-singularity";
+    for (size_t k = 0; k < d.nodes.size(); ++k)
+        if (d.nodes[k].type == MT_BendStretch && std::fabs(b.m.bodies[k].getOneQ(s, 1)) < 0.25) return "near-bendstretch-singularity";
     for (auto& tp : b.twoPoints) {
         Vec3 p1 = b.m.matter.getMobilizedBody(tp.a).getBodyTransform(s) * tp.s1, p2 = b.m.matter.getMobilizedBody(tp.b).getBodyTransform(s) * tp.s2;
         if ((p1 - p2).norm() < 0.05) return "two-point-ends-coincide";
